@@ -1,3 +1,166 @@
-import OptreeModel.Model.Eval
+/-
+  C11  Pickling a treespec preserves it exactly.
+
+  `toPickle` / `fromPickle` model ToPickleable / FromPickleable (serialization.cpp:291-419); the byte
+  level (pickle protocols, copy / deepcopy plumbing, a second interpreter) is not modelled and is
+  exercised by the implementation oracle only.  `Generated.*` is regenerated from the source on
+  every run (translator T-node).
+-/
+import OptreeModel.Model.Serial
+import OptreeModel.Generated.NodeFields
+
 namespace Optree
+
+/-- **Generated obligation.**  Every member of the node record is exported by `ToPickleable` … -/
+theorem C11_covers_all_fields_export :
+    ∀ f ∈ Generated.nodeFields, f ∈ Generated.pickledNodeFields := by decide
+
+/-- … and re-imported by `FromPickleable`. -/
+theorem C11_covers_all_fields_import :
+    ∀ f ∈ Generated.nodeFields, f ∈ Generated.unpickledNodeFields := by decide
+
+/-- **Generated obligation.**  The node record of the source has exactly the members of the model's
+`Node`, and the treespec-level state is (nodes, none_is_leaf, namespace). -/
+theorem C11_model_has_the_same_fields :
+    Generated.nodeFields = ["kind", "arity", "node_data", "node_entries", "custom", "num_leaves",
+                            "num_nodes", "original_keys"] ∧
+    Generated.pickledSpecFields = ["nodes", "none_is_leaf", "namespace"] := by decide
+
+/-- **Generated obligation.**  The kind numbers stored in pickles are the model's. -/
+theorem C11_kind_numbering :
+    Generated.kindNames = ["Custom", "Leaf", "None", "Tuple", "List", "Dict", "NamedTuple",
+                           "OrderedDict", "DefaultDict", "Deque", "StructSequence"] := by decide
+
+theorem C11_kind_roundtrip (k : Kind) : Kind.ofNat? k.toNat = some k := by cases k <;> rfl
+
+/-- a node record whose fields fit its kind (what every engine operation produces) -/
+def Node.shapeOk (n : Node) : Bool :=
+  (match n.kind, n.data with
+   | .leaf, .none | .none, .none | .tuple, .none | .list, .none => true
+   | .dict, .keys _ | .ordereddict, .keys _ => true
+   | .namedtuple, .cls _ | .structseq, .cls _ => true
+   | .defaultdict, _ | .deque, _ | .custom, _ => true
+   | _, _ => false) &&
+  (match n.originalKeys with
+   | Option.none => !(n.kind == .dict || n.kind == .defaultdict)
+   | some _ => n.kind == .dict || n.kind == .defaultdict) &&
+  (if n.kind == .custom then n.custom.isSome else n.entries.isNone && n.custom.isNone)
+
+/-- the registrations recorded in the treespec are the ones the loading registry resolves the
+recorded types to, in the recorded namespace -/
+def Resolves (reg : Registry) (ns : String) (n : Node) : Prop :=
+  ∀ r, n.custom = some r → reg.lookup ns r.clsKind r.cls = some r
+
+theorem fromPickleNode_roundtrip (reg : Registry) (ns : String) (n : Node) (hs : n.shapeOk = true)
+    (hr : Resolves reg ns n) :
+    fromPickleNode reg ns
+      { kind := n.kind.toNat, arity := n.arity, data := n.data, entries := n.entries,
+        customType := n.custom.map fun r => (r.clsKind, r.cls), numLeaves := n.numLeaves,
+        numNodes := n.numNodes, originalKeys := n.originalKeys } = .ok n := by
+  obtain ⟨kind, arity, data, entries, custom, nl, nn, okeys⟩ := n
+  simp only [Node.shapeOk, Bool.and_eq_true] at hs
+  obtain ⟨⟨h1, h2⟩, h3⟩ := hs
+  unfold fromPickleNode
+  simp only [C11_kind_roundtrip]
+  cases kind <;> cases data <;> cases okeys <;> simp_all <;>
+    (first
+      | (cases custom with
+         | none => simp_all
+         | some r => simp [hr r rfl])
+      | (obtain ⟨he, hc⟩ := h3; subst he; subst hc; rfl)
+      | skip)
+
+/-- **Round trip.**  Unpickling a pickled treespec in a process whose registry resolves the recorded
+custom types to the recorded registrations gives back exactly the same treespec — every field of
+every node, `none_is_leaf` and the namespace — hence the same `==`, hash input, repr, paths,
+accessors, entries, children and unflatten behaviour (all of which are functions of the `Spec`). -/
+theorem C11_roundtrip (reg : Registry) (sp : Spec) (hsane : sp.sane = true)
+    (hshape : ∀ n ∈ sp.nodes, n.shapeOk = true) (hres : ∀ n ∈ sp.nodes, Resolves reg sp.ns n)
+    (p : Pickled) (hp : toPickle sp = .ok p) : fromPickle reg p = .ok sp := by
+  unfold toPickle at hp
+  simp only [hsane, Bool.not_true, Bool.false_eq_true, if_false, Except.ok.injEq] at hp
+  subst hp
+  unfold fromPickle
+  simp only
+  have hnodes : (sp.nodes.map fun n =>
+      ({ kind := n.kind.toNat, arity := n.arity, data := n.data, entries := n.entries,
+         customType := n.custom.map fun r => (r.clsKind, r.cls), numLeaves := n.numLeaves,
+         numNodes := n.numNodes, originalKeys := n.originalKeys } : PNode)).mapM
+      (fromPickleNode reg sp.ns) = .ok sp.nodes := by
+    have : ∀ (ns : List Node), (∀ n ∈ ns, n.shapeOk = true) → (∀ n ∈ ns, Resolves reg sp.ns n) →
+        (ns.map fun n =>
+          ({ kind := n.kind.toNat, arity := n.arity, data := n.data, entries := n.entries,
+             customType := n.custom.map fun r => (r.clsKind, r.cls), numLeaves := n.numLeaves,
+             numNodes := n.numNodes, originalKeys := n.originalKeys } : PNode)).mapM
+          (fromPickleNode reg sp.ns) = .ok ns := by
+      intro ns h1 h2
+      induction ns with
+      | nil => rfl
+      | cons n ns ih =>
+        simp only [List.map_cons, List.mapM_cons]
+        rw [fromPickleNode_roundtrip reg sp.ns n (h1 n (by simp)) (h2 n (by simp))]
+        simp only [bind, Except.bind]
+        rw [ih (fun m hm => h1 m (by simp [hm])) (fun m hm => h2 m (by simp [hm]))]
+        rfl
+    exact this sp.nodes hshape hres
+  rw [hnodes]
+  simp [hsane]
+
+/-- **Missing registration.**  If a custom type recorded in the pickle is not registered in the
+recorded namespace of the loading process, loading raises instead of returning a treespec. -/
+theorem C11_missing_registration (reg : Registry) (p : Pickled) (pn : PNode) (hmem : pn ∈ p.nodes)
+    (hk : pn.kind = Kind.custom.toNat) (ck : Nat) (cls : TypeId)
+    (hty : pn.customType = some (ck, cls)) (hmiss : reg.lookup p.ns ck cls = Option.none) :
+    ∃ e, fromPickle reg p = .error e := by
+  have hnode : ∃ e, fromPickleNode reg p.ns pn = .error e := by
+    unfold fromPickleNode
+    simp only [hk, Kind.toNat, Kind.ofNat?, hty, hmiss]
+    split
+    · exact ⟨_, rfl⟩
+    · split
+      · exact ⟨_, rfl⟩
+      · simp
+  obtain ⟨e, he⟩ := hnode
+  have : ∀ (ns : List PNode), pn ∈ ns → ∃ e', ns.mapM (fromPickleNode reg p.ns) = .error e' := by
+    intro ns hm
+    induction ns with
+    | nil => simp at hm
+    | cons q qs ih =>
+      simp only [List.mapM_cons, bind, Except.bind]
+      simp only [List.mem_cons] at hm
+      cases hq : fromPickleNode reg p.ns q with
+      | error e' => exact ⟨e', rfl⟩
+      | ok v =>
+        rcases hm with hm | hm
+        · subst hm; rw [he] at hq; cases hq
+        · obtain ⟨e', he'⟩ := ih hm
+          exact ⟨e', by simp [he']⟩
+  obtain ⟨e', he'⟩ := this p.nodes hmem
+  exact ⟨e', by simp [fromPickle, he']⟩
+
+/-! ### non-vacuity -/
+
+def C11_demoReg : Registry :=
+  { global := [(0, 0, { rid := 1, cls := 0, clsKind := 0, entryKind := .auto, mode := .named })], named := [] }
+
+def C11_demoSpec : Spec :=
+  { nodes := [Node.leaf,
+              { kind := .dict, arity := 1, data := .keys [.str "a"], entries := Option.none,
+                custom := Option.none, numLeaves := 1, numNodes := 2, originalKeys := some [.str "a"] },
+              { kind := .custom, arity := 1, data := .md (some (.int 3)), entries := some [.str "c0"],
+                custom := some { rid := 1, cls := 0, clsKind := 0, entryKind := .auto, mode := .named },
+                numLeaves := 1, numNodes := 3, originalKeys := Option.none }],
+    noneIsLeaf := false, ns := "" }
+
+example : C11_demoSpec.sane = true ∧ C11_demoSpec.nodes.all Node.shapeOk = true := by decide
+
+example : (match toPickle C11_demoSpec with
+    | .ok p => (match fromPickle C11_demoReg p with | .ok s => decide (s = C11_demoSpec) | _ => false)
+    | _ => false) = true := by decide
+
+/-- in a process without the registration, loading fails -/
+example : (match toPickle C11_demoSpec with
+    | .ok p => (match fromPickle Registry.empty p with | .error .runtime => true | _ => false)
+    | _ => false) = true := by decide
+
 end Optree
